@@ -166,5 +166,52 @@ Theorem C20_answered_energy_small_e : forall e0 i r0 w m n b ts j Ew radius thet
 Proof. exact P_Sgp4Energy.energy_leaf3. Qed.
 Print Assumptions C20_answered_energy_small_e.
 
+(* THE PERIGEE / APOGEE CLAUSE in the drag-free case: at the epoch, or at any time when B* = 0, an accepted element set with
+   e0 <= 0.39 returns a geocentric distance (radius = |position|, C20_radius) between the model's perigee and apogee radii
+   a0'' (1 -+ e0) XKMPER widened by 40 km (a = a0'', e = e0 there; long-period term below 9 km, short-period correction below 19 km) *)
+From PyOrb.proofs Require P_Sgp4RadiusFrozen.
+Theorem C20_distance_between_perigee_and_apogee : forall e0 i r0 w m n b ts,
+  gen_init_outcome e0 i r0 w m n b = InitMode NearNorm 1 -> b = 0 \/ ts = 0 -> e0 <= 39 / 100 ->
+  forall j Ew radius theta eqinc ascn rdk rfdk smjaxs,
+  gen_nn1_prop_outcome e0 i r0 w m n b ts = PropOk j ->
+  exit_ok e0 i r0 w m n b ts Ew radius theta eqinc ascn rdk rfdk smjaxs ->
+  a0'' (E e0 i r0 w m n b) * (1 - e0) * XKMPER - 40 <= radius <= a0'' (E e0 i r0 w m n b) * (1 + e0) * XKMPER + 40.
+Proof. exact P_Sgp4RadiusFrozen.distance_between_perigee_and_apogee. Qed.
+Print Assumptions C20_distance_between_perigee_and_apogee.
+
+Theorem C20_distance_between_perigee_and_apogee_small_e : forall e0 i r0 w m n b ts,
+  gen_init_outcome e0 i r0 w m n b = InitMode NearNorm 3 -> b = 0 \/ ts = 0 -> a0'' (E e0 i r0 w m n b) <= 4 ->
+  forall j Ew radius theta eqinc ascn rdk rfdk smjaxs,
+  gen_nn3_prop_outcome e0 i r0 w m n b ts = PropOk j ->
+  exit_ok3 e0 i r0 w m n b ts Ew radius theta eqinc ascn rdk rfdk smjaxs ->
+  a0'' (E e0 i r0 w m n b) * (1 - e0) * XKMPER - 40 <= radius <= a0'' (E e0 i r0 w m n b) * (1 + e0) * XKMPER + 40.
+Proof. exact P_Sgp4RadiusFrozen.distance_between_perigee_and_apogee3. Qed.
+Print Assumptions C20_distance_between_perigee_and_apogee_small_e.
+
+(* THE ENERGY CLAUSE in the drag-free case: at the epoch, or at any time when B* = 0, the specific orbital energy of the returned
+   state is within 1 % of -mu / 2a for the model's semi-major axis a = a0'' XKMPER *)
+From PyOrb.proofs Require P_Sgp4EnergyFrozen.
+Theorem C20_energy_at_epoch_or_drag_free : forall e0 i r0 w m n b ts,
+  gen_init_outcome e0 i r0 w m n b = InitMode NearNorm 1 -> b = 0 \/ ts = 0 -> e0 <= 39 / 100 ->
+  forall j Ew radius theta eqinc ascn rdk rfdk smjaxs,
+  gen_nn1_prop_outcome e0 i r0 w m n b ts = PropOk j ->
+  exit_ok e0 i r0 w m n b ts Ew radius theta eqinc ascn rdk rfdk smjaxs ->
+  let A := a0'' (E e0 i r0 w m n b) in
+  Rabs (((rdk ^ 2 + rfdk ^ 2) / 2 - P_Sgp4Energy.mu_km / radius) - (- P_Sgp4Energy.mu_km / (2 * (A * XKMPER))))
+    <= P_Sgp4Energy.mu_km / (2 * (A * XKMPER)) / 100.
+Proof. exact P_Sgp4EnergyFrozen.energy_when_frozen. Qed.
+Print Assumptions C20_energy_at_epoch_or_drag_free.
+
+Theorem C20_energy_at_epoch_or_drag_free_small_e : forall e0 i r0 w m n b ts,
+  gen_init_outcome e0 i r0 w m n b = InitMode NearNorm 3 -> b = 0 \/ ts = 0 ->
+  forall j Ew radius theta eqinc ascn rdk rfdk smjaxs,
+  gen_nn3_prop_outcome e0 i r0 w m n b ts = PropOk j ->
+  exit_ok3 e0 i r0 w m n b ts Ew radius theta eqinc ascn rdk rfdk smjaxs ->
+  let A := a0'' (E e0 i r0 w m n b) in
+  Rabs (((rdk ^ 2 + rfdk ^ 2) / 2 - P_Sgp4Energy.mu_km / radius) - (- P_Sgp4Energy.mu_km / (2 * (A * XKMPER))))
+    <= P_Sgp4Energy.mu_km / (2 * (A * XKMPER)) / 100.
+Proof. exact P_Sgp4EnergyFrozen.energy_when_frozen3. Qed.
+Print Assumptions C20_energy_at_epoch_or_drag_free_small_e.
+
 Example C20_inhabited : 0 < 7000 * (15 / 2).
 Proof. lra. Qed.
